@@ -286,6 +286,39 @@ example :
        ⟨.dupAttr "byte_order", 3, .whole, some 0⟩, ⟨.noDefault "byte_order", 4, .name, none⟩] := by
   decide +kernel
 
+/-- **Where the field-attribute errors point** (`_verify_field_attributes`).  The located
+check reports exactly the kinds of `verifyByteOrder ++ verifyRequires`; "byte_order required" is
+reported at the field itself; a `[requires]` placement error at the value of the field's OWN
+`[requires]` attribute (an index into its attribute list) — never at another field or scope.
+("not allowed" / "may only be 'Null'" point at the field's own byte_order attribute, or, for a
+`Null` inherited from a `$default`, at that `$default`: `FieldAt.inherited`.) -/
+theorem C14_field_errors_located (p : Program) (d : Option AVal) (t : TypeInfo) (f : Field) :
+    (verifyFieldL p d t f).map (·.1) = verifyByteOrder p d t f ++ verifyRequires p f ∧
+    (∀ e ∈ verifyFieldL p d t f, e.1 = .boRequired → e.2 = .field) ∧
+    (∀ k ∈ verifyRequires p f, k = .requiresArray ∨ k = .requiresType →
+      ∃ i, fieldErrAt f k = .attrValue i ∧ i < f.attrs.length) := by
+  refine ⟨verifyFieldL_kinds p d t f, ?_, fun k hk hr => requires_located p f k hk hr⟩
+  intro e he hb
+  simp only [verifyFieldL, List.mem_map] at he
+  obtain ⟨k, _, rfl⟩ := he
+  simp only at hb
+  subst hb
+  rfl
+
+/-- non-vacuity: `0 [+2] UInt x` without byte order → at the field; `[requires: …]` (attribute
+#1) on an array → at the value of attribute #1; `[byte_order: "Null"]` (attribute #0) on a 2-byte
+field → at the value of attribute #0; the same `Null` inherited from the module's `$default` →
+`inherited`. -/
+example :
+    verifyFieldL exNoByteOrder none (exStruct [exField 2 []] []) (exField 2 []) = [(.boRequired, .field)] ∧
+    verifyFieldL exGood (some (.str "LittleEndian")) (exStruct [] [])
+      { exField 2 [⟨"text_output", "", false, .str "Emit"⟩, ⟨"requires", "", false, .bool none false⟩]
+        with ty := .array (.atomic 0 (some 8)) (.const 2) } = [(.requiresArray, .attrValue 1)] ∧
+    verifyFieldL exGood none (exStruct [] []) (exField 2 [⟨"byte_order", "", false, .str "Null"⟩])
+      = [(.boNull, .attrValue 0)] ∧
+    verifyFieldL exGood (some (.str "Null")) (exStruct [] []) (exField 2 []) = [(.boNull, .inherited)] := by
+  decide +kernel
+
 /-! ### Attribute lookups and the qualifier quirk -/
 
 /-- On an attribute list without back-end-qualified attributes the front end's lookup is the
